@@ -346,7 +346,7 @@ func genC19(r *hx.Rand) c19Case {
 	for _, sn := range names([]string{"main", "s1", "s2", "t1"}, 2) {
 		s := xSchema{Name: sn, Tables: []xTable{}, Views: []xView{}}
 		for _, tn := range names([]string{"t1", "t2", "users", "v1"}, 3) {
-			t := xTable{Name: tn, Columns: names([]string{"c1", "c2", "id", "t1"}, 3), Indexes: []xIndex{}, FKs: []xFK{}, Checks: names([]string{"k1", "c1", "chk"}, 2)}
+			t := xTable{Name: tn, Columns: names([]string{"c1", "c2", "id", "t1"}, 3), Indexes: []xIndex{}, FKs: []xFK{}, Checks: names([]string{"k1", "c1", "chk", ""}, 2)}
 			if len(t.Columns) > 0 {
 				for _, in := range names([]string{"i1", "i2", "c1"}, 2) {
 					t.Indexes = append(t.Indexes, xIndex{in, []string{hx.Pick(r, t.Columns)}})
